@@ -284,6 +284,8 @@ pub struct CaseState {
     pub fault_kind: String,
     pub n: u64,
     pub log: Vec<J>,
+    pub copies: HashMap<String, (String, String)>,
+    pub ctx_copy: Option<Box<dyn Fn(&str, &str) + Send>>,
     pub ctx_try_lock: Option<Box<dyn Fn() -> bool + Send>>,
     pub ctx_lock_blocking: Option<Box<dyn Fn() + Send>>,
 }
@@ -310,6 +312,12 @@ pub fn handler_body(h: &str, args: Vec<Value>) -> expression_engine::Result<Valu
         c.log.push(json!([h, args.iter().map(value_to_json).collect::<Vec<_>>(), ctx_free, regs_free]));
         let act = c.acts.get(h).cloned().unwrap_or_default();
         let o = if c.fault_k == c.n { Err(c.fault_kind.clone()) } else { Ok(c.rets.get(h).cloned().unwrap_or(Value::None)) };
+        // a handler that writes to the context it is evaluated in (it takes the context lock itself)
+        if o.is_ok() {
+            if let (Some((from, to)), Some(f)) = (c.copies.get(h), c.ctx_copy.as_ref()) {
+                f(from, to);
+            }
+        }
         let re = if act == "lockctx-blocking" { c.ctx_lock_blocking.take() } else { None };
         (o, act, re)
         })
@@ -418,6 +426,10 @@ pub fn run_case(r: &J, followups: bool) -> Observed {
     for (h, v) in obj(r, "handlers") {
         rets.insert(h.clone(), json_to_value(v).unwrap_or(Value::None));
     }
+    let mut copies = HashMap::new();
+    for (h, v) in obj(r, "copies") {
+        copies.insert(h.clone(), (v[0].as_str().unwrap().to_string(), v[1].as_str().unwrap().to_string()));
+    }
     let mut acts = HashMap::new();
     for (h, v) in obj(r, "acts") {
         acts.insert(h.clone(), v.as_str().unwrap_or("").to_string());
@@ -446,13 +458,13 @@ pub fn run_case(r: &J, followups: bool) -> Observed {
         return Observed { st: "panic".into(), val: json!(["none"]), ctx: json!({}), log: vec![], poisoned: false, followups: vec![format!("registration panics (registry poisoned by an earlier evaluation?): {}", m)] };
     }
     let mut ctx = Context::new();
-    let mut installed: HashMap<String, Arc<dyn Fn(Vec<Value>) -> expression_engine::Result<Value> + Send + Sync>> = HashMap::new();
+    let mut installed: HashMap<String, (String, Arc<dyn Fn(Vec<Value>) -> expression_engine::Result<Value> + Send + Sync>)> = HashMap::new();
     for (name, e) in obj(r, "ctx0") {
         if e[0] == "var" {
             ctx.set_variable(name, json_to_value(&e[1]).unwrap_or(Value::None));
         } else {
             let f = handler_arc(e[1].as_str().unwrap());
-            installed.insert(name.clone(), f.clone());
+            installed.insert(name.clone(), (e[1].as_str().unwrap().to_string(), f.clone()));
             ctx.set_func(name, f);
         }
     }
@@ -460,6 +472,7 @@ pub fn run_case(r: &J, followups: bool) -> Observed {
     let ast = build_ast(&r["prog"], &mut ctx, &mut hidden);
     let handle = ctx.0.clone();
     let handle2 = ctx.0.clone();
+    let handle3 = ctx.0.clone();
     let fault = &r["fault"];
     CASE.with(|cell| *cell.borrow_mut() = Some(CaseState {
         rets,
@@ -468,6 +481,15 @@ pub fn run_case(r: &J, followups: bool) -> Observed {
         fault_kind: fault[1].as_str().unwrap_or("none").to_string(),
         n: 0,
         log: Vec::new(),
+        copies,
+        // the entry type is not nameable outside the crate; an entry is copied from one name to another instead
+        ctx_copy: Some(Box::new(move |from, to| {
+            if let Ok(mut g) = handle3.try_lock() {
+                if let Some(e) = g.get(from).cloned() {
+                    g.insert(to.to_string(), e);
+                }
+            }
+        })),
         ctx_try_lock: Some(Box::new(move || handle.try_lock().is_ok())),
         ctx_lock_blocking: Some(Box::new(move || {
             let _g = handle2.lock();
@@ -498,8 +520,9 @@ pub fn run_case(r: &J, followups: bool) -> Observed {
             if let Some(v) = ctx.get_variable(&k) {
                 cj.insert(k, json!(["var", value_to_json(&v)]));
             } else if let Some(f) = ctx.get_func(&k) {
-                let same = installed.get(&k).map(|g| Arc::ptr_eq(g, &f)).unwrap_or(false);
-                cj.insert(k, json!(["fn", if same { "same" } else { "other" }]));
+                // which of the installed handlers is bound here (a handler may have copied an entry to another name)
+                let hid = installed.values().find(|(_, g)| Arc::ptr_eq(g, &f)).map(|(h, _)| h.clone()).unwrap_or("other".to_string());
+                cj.insert(k, json!(["fn", hid]));
             }
         }
     }
@@ -553,7 +576,7 @@ fn ctx_matches(expected: &J, got: &J) -> bool {
             if v[0] == "var" {
                 w[0] == "var" && veq(&v[1], &w[1])
             } else {
-                w[0] == "fn" && w[1] == "same"
+                w[0] == "fn" && w[1] == v[1]
             }
         }
     })
@@ -760,7 +783,13 @@ pub fn eval_record(args: &[String]) {
             1 => json!([r.gen_range(1..6), "panic"]),
             _ => json!([0, "none"]),
         };
-        cases.push(json!({"prog": prog, "ctx0": ctx0, "handlers": handlers, "gfun": {"G1": "h5", "G2": "h6"}, "fault": fault}));
+        // now and then a handler writes to the context it is evaluated in: f2 copies a over b, G1 copies the function t1 over p
+        let copies = match r.gen_range(0..4) {
+            0 => json!({"h2": ["a", "b"]}),
+            1 => json!({"h2": ["a", "b"], "h5": ["t1", "p"]}),
+            _ => json!({}),
+        };
+        cases.push(json!({"prog": prog, "ctx0": ctx0, "handlers": handlers, "copies": copies, "gfun": {"G1": "h5", "G2": "h6"}, "fault": fault}));
     }
     // run the cases: on one thread, or spread over `--threads` threads that evaluate concurrently, each on its own contexts (C16)
     let nthreads = arg_u64(args, "--threads", 1) as usize;
